@@ -74,6 +74,18 @@ def detect(argv):
             names.append(a)
     if not names:
         names = sorted(os.listdir(SEEDED))
+    # the evidence files describe the unchanged tree: keep them out of the seeded runs' way
+    backup = os.path.join(ROOT, ".work", "evidence-before-seeds")
+    shutil.rmtree(backup, ignore_errors=True)
+    shutil.copytree(os.path.join(ROOT, "evidence"), backup)
+    try:
+        return detect_names(names, tier)
+    finally:
+        shutil.rmtree(os.path.join(ROOT, "evidence"))
+        shutil.copytree(backup, os.path.join(ROOT, "evidence"))
+
+
+def detect_names(names, tier):
     for name in names:
         d = os.path.join(SEEDED, name)
         meta = json.load(open(os.path.join(d, "meta.json")))
